@@ -214,6 +214,11 @@ def builder_for(mode):
             with lazy:
                 r = build(prog, leaves)
             return funsor.reinterpret(r)
+        if mode == "normalize":       # built under normalize (its Subs rules call eager_subs themselves), then evaluated
+            from funsor.interpretations import normalize
+            with normalize:
+                r = build(prog, leaves)
+            return funsor.reinterpret(r)
         if mode == "chained":
             ff = build(f, leaves)
             for k, v in pairs:
@@ -301,8 +306,17 @@ def subst_maps(f, rng, limit):
     if len(bn) >= 3:
         (k1, n1), (k2, n2), (k3, n3) = bn[:3]
         maps.append(((k1, num(0, n1)), (k2, _leaf_idx("ix%d" % n2, ("k",), n2)), (k3, var("v3", ("bint", n3)))))
+    # renaming onto a name that is substituted away at the same time (by an index tensor over the renamed name, a
+    # number, a slice): always included
+    must = []
+    for (k1, n1), (k2, n2) in itertools.permutations(bn, 2):
+        if n1 == n2:
+            must.append(((k1, var(k2, ("bint", n2))), (k2, leaf("self%d_%s" % (n1, k1), ((k1, n1),), (), ("int", n2)))))
+            must.append(((k1, var(k2, ("bint", n2))), (k2, num(0, n2))))
+            must.append(((k1, var(k2, ("bint", n2))), (k2, slice_("w_" + k2, 0, n2, 2, n2))))
+    rng.shuffle(must)
     rng.shuffle(maps)
-    return maps[:limit]
+    return must[:3] + maps[:limit]
 
 
 def instances(tier, seed):
@@ -333,8 +347,8 @@ def instances(tier, seed):
             p = subs(f, m)
             if not well_typed(p):
                 continue
-            mode = rng.choice(["eager", "lazyf", "lazyall"]) if tier == "quick" else None
-            for md in ([mode] if mode else ["eager", "lazyf", "lazyall"]):
+            mode = rng.choice(["eager", "lazyf", "lazyall", "normalize"]) if tier == "quick" else None
+            for md in ([mode] if mode else ["eager", "lazyf", "lazyall", "normalize"]):
                 out.append(("prog", md, p))
             if len(m) >= 2 and rng.random() < 0.5:
                 out.append(("prog", "chained", p))
